@@ -85,7 +85,7 @@ CLAIMS['C20'] = dict(category='exploration', ref='8 C20', text=_CLIENT_TEXT % "T
 
 _REFINE_FWD = " REFINEMENT: see C01 (`Broker_refines_spec`, side condition okEv, relation R, `Accepts`)."
 CLAIMS['C02'] = dict(category='proof', ref='5 Core E, 8 C02',
-    text=_BROKER_TEXT % ("Theorems (22, all states satisfying the proved invariant BInv / all histories): exactly one PUBACK per QoS 1 PUBLISH and one "
+    text=_BROKER_TEXT % ("Theorems (23, all states satisfying the proved invariant BInv / all histories): exactly one PUBACK per QoS 1 PUBLISH and one "
         "hand-over per PUBLISH received (C02_qos1); a QoS 2 PUBLISH is answered by exactly PUBREC and nothing is handed on at PUBLISH time, a "
         "repeated identifier keeps the first content (C02_qos2_publish); PUBREL hands over the released prefix and is answered by exactly one "
         "PUBCOMP, last (C02_pubrel, C02_releaseAll), PUBREC by exactly PUBREL (C02_pubrec); exactly-once conservation over any history of any "
@@ -110,7 +110,7 @@ _PARTIAL_SCHED = (" PARTIAL: theorems are about the sequential model (one event 
                   "decidable hypothesis `good` (no empty level: exactly the open finding B3, whose full statements are kept beside proved "
                   "counterexamples and whose witnesses are replayed on the real code on every run; and not beginning with '$': such topics are "
                   "outside the properties' quantifier, the store turns them away and the oracle leaves events naming them open).")
-_REFINE = (" REFINEMENT (Proofs/BrokerRefine*.lean, `Broker_refines_spec`): one theorem for all histories - under the abstraction relation R (trie entries = "
+_REFINE = (" HISTORIES WITH FAILED HANDSHAKES: `Cxx_refines_reference_with_failed_handshakes` states the same after every admitted history of the extended event type EvX = Ev + failFirst (first packets whose answer cannot be written: Model/Spec `connectFail`, `BrokerX_refines_spec`, Proofs/BrokerRefineFail.lean, BrokerRefineCorX.lean), which is what the runs contain since the event `failfirst`. REFINEMENT (Proofs/BrokerRefine*.lean, `Broker_refines_spec`): one theorem for all histories - under the abstraction relation R (trie entries = "
            "the reference broker's held list, retained trie = its retained messages, live sessions/connections = its connection records incl. will, "
            "CleanSession, open inbound QoS 2 exchanges and Session.topics, stored CleanSession=0 sessions = its stored map, at most one live connection per client identifier) every event admitted by the "
            "decidable side condition okEv (topic/filter arguments `good` - no empty level: finding B3, no leading '$' -; PUBLISH topic a valid name, QoS <= 2, "
@@ -122,7 +122,7 @@ _REFINE = (" REFINEMENT (Proofs/BrokerRefine*.lean, `Broker_refines_spec`): one 
            "subscription, retained publish, QoS 2 exchange, will on close, persistent-session reconnect, in-process API, refused first packet and an anonymous "
            "client, admitted by `decide`.")
 CLAIMS['C01'] = dict(category='proof', ref='5 Core E, 8 C01', text=_BROKER_TEXT % (
-    "Theorems (11): exact ordered outputs of the live fan-out incl. the in-place message mutation - RETAIN cleared once before the loop for connections and "
+    "Theorems (12): exact ordered outputs of the live fan-out incl. the in-place message mutation - RETAIN cleared once before the loop for connections and "
     "in-process callbacks alike, restored after it (C01_fanout_char on fanoutLive, C01_fanout_loop on the bare loop, C01_fanout_ids); onPublish delivers to "
     "exactly one copy per trie entry whose filter matches under section 4.7, at min(publish QoS, granted QoS), same topic, identical payload, and to "
     "nobody else (C01_publish_reaches_matching_partial, _reachable_partial without the liveness hypothesis, C01_publish_held_partial / "
@@ -131,7 +131,7 @@ CLAIMS['C01'] = dict(category='proof', ref='5 Core E, 8 C01', text=_BROKER_TEXT 
     "admitted history (resumed sessions and connection ends included) a PUBLISH hands every addressee exactly one copy per matching subscription the reference "
     "broker holds for it, at min(publish, granted) QoS, RETAIN=0, and nothing to anybody else.") + _REFINE + _PARTIAL_SCHED)
 CLAIMS['C07'] = dict(category='proof', ref='5 Core E, 8 C07', text=_BROKER_TEXT % (
-    "Theorems (18): exactly one SUBACK, first, same id, one code per filter in request order = min(requested, maximum) or 0x80, everything after it is a "
+    "Theorems (20 with the source tie): exactly one SUBACK, first, same id, one code per filter in request order = min(requested, maximum) or 0x80, everything after it is a "
     "PUBLISH to the subscriber (C07_suback_shape); codes equal the reference broker's for EVERY filter that does not begin with '$', empty levels and the empty filter included (C07_codes_spec_full_holds - the full statement, true since the repair of B6: the store accepts exactly the valid filters, Proofs.Topics.levels_ok / entryLevels_ok; C07_codes_spec_partial is its corollary; 'a/$b' and '+/$b' are granted since the repair of B4: C07_codes_dollar_level; the empty filter gets 0x80 on both sides: C07_codes_empty_filter); "
     "UNSUBSCRIBE answered by exactly one UNSUBACK (C07_unsuback); both acknowledgements are written after the last change to the subscription store and the session (regenerated statement order, C07_ack_follows_effects); effect on the trie, other subscribers untouched (C07_subscribe_effect, "
     "C07_unsubscribe_effect, C07_granted_is_held); a matching PUBLISH accepted after the SUBACK is forwarded, none after the UNSUBACK "
@@ -139,7 +139,7 @@ CLAIMS['C07'] = dict(category='proof', ref='5 Core E, 8 C07', text=_BROKER_TEXT 
     "_srv_partial; B3 counterexample); regenerated maximum QoS = specification's (C07_facts_maxQos); invariant preserved by every step (C07_inv_step/_run). "
     "C07_refines_reference: after any admitted history SUBACK (first, the reference broker's codes) / UNSUBACK (only output) and afterwards the trie holds exactly the reference broker's held list.") + _REFINE + _PARTIAL_SCHED)
 CLAIMS['C08'] = dict(category='proof', ref='5 Core E, 8 C08', text=_BROKER_TEXT % (
-    "Theorems (20): every PUBLISH forwarded by onPublish/fanoutLive (any step other than a SUBSCRIBE) to a connection and every live forward handed to an "
+    "Theorems (21): every PUBLISH forwarded by onPublish/fanoutLive (any step other than a SUBSCRIBE) to a connection and every live forward handed to an "
     "in-process callback (any step other than its own Server.Subscribe) carries RETAIN=0 (C08_forward_retain_zero, _all, C08_fanout_retain_zero, "
     "C08_step_retain_zero); an in-process subscriber sees RETAIN=0 on a live forward and RETAIN=1 on the retained delivery at subscription time "
     "(C08_callback_retain; E10, repaired by 4cf3ecf); the retain step stores / "
@@ -150,7 +150,7 @@ CLAIMS['C08'] = dict(category='proof', ref='5 Core E, 8 C08', text=_BROKER_TEXT 
     "C08_refines_reference: after any admitted history the retained trie is the reference broker's store and the deliveries after a SUBACK are exactly (as a multiset, DUP/id free) the messages it demands, RETAIN=1.") + _REFINE + _PARTIAL_SCHED +
     " Byte identity of payloads across ring reuse and retained updates concurrent to subscriptions are memory/race facts outside the pure model (correspondence / C18).")
 CLAIMS['C09'] = dict(category='proof', ref='5 Core E, 8 C09', text=_BROKER_TEXT % (
-    "Theorems (25 + source ties; SERVER CLOSE is part of the broker model and of every broker run since `srvclose` (Model/Broker.lean `srvClose` = stop() for every live connection in the order of registration; harness event `srvclose` = Server.Close on the real server, one episode in three ends with it): C09_stopAll_is_run, C09_server_close_publishes_wills - it is the run of the non-graceful ends of all live connections, along which the refinement holds, so every will is published (to the in-process subscribers observably; what reaches a connection that is closed on the same line is not observed) -, C09_server_close_is_source ties the loop order of Server.Close (fact takeoverCloseSeq); C09_unanswerable_connect_no_will: a CONNECT whose answer cannot be written yields the ends of the connections it takes over and its own close - its will is never published, no connection and no subscription exists for it): DISCONNECT emits only the close, nothing is published, later events for the connection are silent (C09_disconnect_no_will, "
+    "Theorems (27 with the source ties; SERVER CLOSE is part of the broker model and of every broker run since `srvclose` (Model/Broker.lean `srvClose` = stop() for every live connection in the order of registration; harness event `srvclose` = Server.Close on the real server, one episode in three ends with it): C09_stopAll_is_run, C09_server_close_publishes_wills - it is the run of the non-graceful ends of all live connections, along which the refinement holds, so every will is published (to the in-process subscribers observably; what reaches a connection that is closed on the same line is not observed) -, C09_server_close_is_source ties the loop order of Server.Close (fact takeoverCloseSeq); C09_unanswerable_connect_no_will: a CONNECT whose answer cannot be written yields the ends of the connections it takes over and its own close - its will is never published, no connection and no subscription exists for it): DISCONNECT emits only the close, nothing is published, later events for the connection are silent (C09_disconnect_no_will, "
     "C09_disconnect_after_history); an abnormal end emits the close followed by exactly the fan-out of the will, once (C09_will_published_once, "
     "C09_no_will_no_publish, C09_stopBase); after an accepted CONNECT, fresh or resumed, the session's will is THIS CONNECT's (topic, payload, QoS, "
     "retain) (C09_will_is_current_connect, C09_initWill_fields, C09_current_will_published, C09_will_of_own_connect over quiet histories); no other event "
@@ -167,7 +167,7 @@ CLAIMS['C10'] = dict(category='proof', ref='5 Core E, 8 C10', text=_BROKER_TEXT 
     "C10_refines_reference: after any admitted history an accepted CONNECT first takes over the live connection of its client identifier, if any (there is at most one; model `stop` = reference `endConn`, not graceful), then is answered CONNACK 0 with SessionPresent = (CleanSession=0 and the reference broker stores a session for the id after the take-over: iff the connection taken over had CleanSession=0, or an older session was stored), and the trie then holds the reference broker's held list - nothing of the connection taken over, the resumed subscriptions for the new one.") + _REFINE + _PARTIAL_SCHED +
     " Two live connections under one client identifier no longer exist: take-over (finding G5, repaired; the regression witness - the older connection ending later must not take the newer one's subscription with it - is replayed on every run). Source ties for the take-over (Properties/C10Source.lean, regenerated facts of extract/facts_takeover.go): disconnectClient drops the entries whose `stopped` channel is closed (not those whose `closed` flag is set), collects the client's connections, unlocks, and for each calls stop() and waits for `stopped` - for every population of live / ending / finished connections it returns with every connection of the client FINISHED, which is the state the model's `first` runs in; handleConnection takes connectMu before it and holds it to its return (C10_takeover_shape_is_source); Session.Resumable is initted && Cmsg != nil && !CleanSession and getSession resumes only behind it, the model's `filter (!s.clean)` (C10_resumable_is_source). The held take-over scenario `life takeover resume` (a CONNECT while the old connection's teardown is pending behind a client that does not read: no CONNACK before the teardown has finished, and the new connection's session survives the old one's late end)  is part of every run. FAILED HANDSHAKES (Model/Broker.lean `firstFail`/`connectFail`, Spec/Broker.lean `firstFail`/`connectFail`, Proofs/BrokerRefineFail.lean): the path of handleConnection on which the CONNACK of an accepted CONNECT cannot be written (peer gone) is part of the model - take-over, then the session lookup / Session.Update / creation of getSession, and nothing else: no connection, no re-subscription, no stop() - and of the reference broker (CleanSession=1 discards the stored state, CleanSession=0 keeps it exactly as it was); C10_failed_handshake_refines extends the refinement theorem to histories with such events (EvX, BrokerX_refines_spec: R preserved, outputs accepted), C10_failed_handshake_keeps_session / _model_keeps_session state that the stored session, its subscriptions and open QoS 2 exchanges survive the failed attempt on both sides, C10_failed_write_is_source ties the error branch to the source (regenerated fact takeoverWriteFailReturnsOnly: the branch is `return nil, err` alone). Tie: event `failfirst` (the broker's end of the pipe refuses every write) in one CONNECT of nine of every broker generator; whether a CleanSession=0 CONNECT that could not be answered and found no state counts as an earlier CleanSession=0 connection is left open by the property - the SessionPresent bit of that client's next CONNACK is not compared in the specification stream.")
 CLAIMS['C11'] = dict(category='proof', ref='5 Core E, 8 C11', text=_BROKER_TEXT % (
-    "Theorems (17; the last two - C11_unanswerable_refusal_changes_nothing, C11_unanswerable_refusal_spec - for a refused first packet whose refusal cannot even be written: state untouched on both sides, only the close): CONNACK 0 is emitted exactly when the reference refusal list is empty; otherwise the state is unchanged and the answer is a silent close "
+    "Theorems (18; the last two - C11_unanswerable_refusal_changes_nothing, C11_unanswerable_refusal_spec - for a refused first packet whose refusal cannot even be written: state untouched on both sides, only the close): CONNACK 0 is emitted exactly when the reference refusal list is empty; otherwise the state is unchanged and the answer is a silent close "
     "with 'malformed' among the reasons or a code k!=0 with k among them (C11_table, C11_accept_iff, C11_checks_are_spec); precedence of the code's checks "
     "(C11_precedence_*); exactly one CONNACK for a CONNECT that passes the flag checks, none otherwise (C11_one_connack, C11_not_connect); a refused first "
     "packet and any further events on a connection that was never accepted leave the state unchanged and address only that connection "
